@@ -62,11 +62,14 @@ class Lock:
 
 # ------------------------------------------------------------------ builds
 def regen():
-    """Translators T1-T3, T5, T6: /repo sources -> coq/Gen/*.v (rewritten only on change)."""
+    """Translators T1-T6: /repo sources -> coq/Gen/*.v (rewritten only on change)."""
     rc, out = sh([sys.executable, os.path.join(VERIF, "tools", "gen_consts.py")])
     if rc != 0:
         raise Break("translator tools/gen_consts.py aborted (source no longer has the shape it understands)", out[-2000:])
-    return out
+    rc, out2 = sh([sys.executable, os.path.join(VERIF, "tools", "gen_kernels.py")])
+    if rc != 0:
+        raise Break("translator tools/gen_kernels.py (T4) aborted (a kernel is no longer written in the subset it understands)", out2[-2000:])
+    return out + out2
 
 
 def coq_makefile():
